@@ -119,12 +119,23 @@ def exec_in_child(execute, scenario, timeout=CHILD_TIMEOUT_S):
         except OSError:
             pass
     _, status = os.waitpid(pid, 0)
+    _cleanup_scratch(pid)
     if timed_out:
         return {'harness_error': f'wall-clock safety net: child exceeded {timeout}s'}
     try:
         return json.loads(b''.join(chunks).decode('utf8'))
     except Exception:
         return {'harness_error': f'child died, wait status {status}, {len(b"".join(chunks))} bytes of output'}
+
+
+def _cleanup_scratch(pid):
+    """Remove whatever scratch tree a (possibly killed) scenario child left behind."""
+    import shutil
+    from . import build
+    try:
+        shutil.rmtree(os.path.join(build.scratch_root(), f'tdsim-{pid}'), ignore_errors=True)
+    except Exception:
+        pass
 
 
 # ------------------------------------------------------------------------------------------------
@@ -288,6 +299,10 @@ def main(check, argv=None):
     try:
         build.ensure_build()
         check.setup()
+        import logging
+        import warnings
+        logging.disable(logging.CRITICAL)       # the code under test logs every damaged file; output only
+        warnings.simplefilter('ignore')
     except Exception:
         print('HARNESS-ERROR setup: ' + traceback.format_exc(), file=sys.stderr)
         return 2
@@ -353,6 +368,12 @@ def main(check, argv=None):
         e = known_seen[kid]
         print(f'KNOWN-FINDING: property={check.PROPERTY} {e["entry"]["what"]} [{kid}; {e["runs"]} runs]')
 
+    cls_count = {}
+    for r, unknown in violating:
+        for c in sorted({v['cls'] for v in unknown}):
+            cls_count[c] = cls_count.get(c, 0) + 1
+    if cls_count:
+        print(f'unknown violation classes (runs): {json.dumps(cls_count, sort_keys=True)}')
     # Minimise and report up to 3 distinct unknown violation classes.
     reported = []
     seen_cls = set()
